@@ -257,7 +257,7 @@ func runC39(c *Ctx) {
 		var bad []string
 		for _, cn := range callees {
 			switch {
-			case cn == "hash/fnv.New32a", strings.HasSuffix(cn, "Hash32.Write"), strings.HasSuffix(cn, "Hash32.Sum32"), cn == "(*accessLogSampler).key":
+			case cn == "hash/fnv.New32a", strings.HasSuffix(cn, "Hash32.Write"), strings.HasSuffix(cn, "Hash32.Sum32"), cn == "(*accessLogSampler).key", neutralCallee(cn):
 			default:
 				bad = append(bad, cn)
 			}
